@@ -14,6 +14,7 @@ import (
 	"regexp"
 	"sort"
 	"strings"
+	"syscall"
 
 	"github.com/wader/fq/internal/verif/core"
 	"github.com/wader/fq/internal/verif/fqrun"
@@ -569,6 +570,10 @@ func run(r *core.Run) {
 		for s := range sectionTotal {
 			r.Section(s)
 		}
+	}
+	var ru syscall.Rusage
+	if syscall.Getrusage(syscall.RUSAGE_SELF, &ru) == nil {
+		r.Count("cpu_ms_all_shards", (ru.Utime.Sec+ru.Stime.Sec)*1000+int64(ru.Utime.Usec+ru.Stime.Usec)/1000)
 	}
 	// states: written for the parent to merge (distinct over all shards)
 	if r.IsChild {
